@@ -92,6 +92,13 @@ impl Snapshot {
         None
     }
 
+    /// All DVs of a table, keyed by RowSet id. Unlike `get_dvs_of` this also reaches the DVs of
+    /// RowSets that are no longer part of the snapshot (compaction does not remove the DVs of
+    /// the RowSets it merges).
+    pub fn get_all_dvs_of(&self, table_id: u32) -> Option<&HashMap<u32, HashSet<u64>>> {
+        self.dvs.get(&table_id)
+    }
+
     pub fn get_rowsets_of(&self, table_id: u32) -> Option<&HashSet<u32>> {
         if let Some(rowset) = self.rowsets.get(&table_id) {
             return Some(rowset);
